@@ -25,9 +25,9 @@ def run_one(schema: dict, rng, exercise: int) -> dict:
     static_sig = {}
     for f in sr.findings:
         if f["kind"].startswith("static-"):
-            static_sig.setdefault((f.get("name")), c17_run.classify(f, d, schema["module"]))
+            static_sig.setdefault((f.get("name")), c17_run.classify(f, d, schema["module"], schema["src"]))
     for f in sr.findings:
-        sig = c17_run.classify(f, d, schema["module"])
+        sig = c17_run.classify(f, d, schema["module"], schema["src"])
         if sig.get("cause") == "other" and f["kind"].startswith("own-") and f.get("name") in static_sig \
                 and static_sig[f.get("name")].get("kind") == sig.get("kind"):
             sig = static_sig[f.get("name")]      # the executed error path hit what the static oracle located
